@@ -239,14 +239,21 @@ def gen_jobs(rs, tier):
         n = int(rs.randint(2, 9))
         A = rand_sparse(rs, n, rs.choice([.2, .5]))
         i, j = [int(x) for x in rs.choice(n, size=2, replace=False)]
-        kind = rs.randint(3)
+        kind = rs.randint(6)
         if kind == 0:
             A[i][j] = 1; A[j][i] = 0
         elif kind == 1:
             A[i][j] = 2; A[j][i] = 1
-        else:
+        elif kind == 2:
             A[i][j] = 1; A[j][i] = -1
-        jobs.append({'A': A, 'fam': 'asymmetric', 'dist': False})
+        elif kind == 3:
+            # asymmetry far below any float tolerance: a one-sided edge of tiny weight is still a directed edge
+            A[i][j] = float(rs.choice([2.0 ** -30, 2.0 ** -40, 2.0 ** -27])); A[j][i] = 0
+        elif kind == 4:
+            A[i][j] = 1.0; A[j][i] = 1.0 + float(rs.choice([2.0 ** -20, 2.0 ** -30, 2.0 ** -40]))
+        else:
+            A[i][j] = 0; A[j][i] = float(rs.choice([2.0 ** -34, 2.0 ** -28]))
+        jobs.append({'A': A, 'fam': 'asymmetric', 'dist': False, 'scale': 2 ** 40 if kind >= 3 else 1})
     return jobs
 
 
